@@ -1401,3 +1401,25 @@ def extra(ctx, stats):
       "Lattice placements violate ONLY the chosen inequality whenever the other covered inequalities do not imply it")
   stats["exhaustive"] = bool(total and all(done.get(k) == v for k, v in total.items()))
   return []
+
+
+def _probe_d72(ctx):
+  """Known finding D72: the KFL assert accepts increasing but NEGATIVE factors, for which the function decreases."""
+  tf, tfl = tfimpl.tfl()
+  layer = tfl.layers.KroneckerFactoredLattice(lattice_sizes=2, units=1, num_terms=1, monotonicities=[1, 1],
+                                              dtype="float64")
+  layer.build(tf.TensorShape((None, 2)))
+  layer.kernel.assign(np.array([[-1.0, -1.0], [0.0, 0.0]]).reshape(1, 2, 2, 1))
+  layer.scale.assign(np.array([[1.0]]))
+  try:
+    layer.assert_constraints(eps=0.0)
+  except tf.errors.InvalidArgumentError:
+    return None
+  y = layer(np.array([[0.0, 0.0], [1.0, 0.0]])).numpy().ravel()
+  if y[0] > y[1] + 1e-9:
+    return ("KroneckerFactoredLattice(2, monotonicities=[1,1]) with factors [-1,0],[-1,0]: assert_constraints(0) returned "
+            "although f(0,0)=%g > f(1,0)=%g" % (y[0], y[1]))
+  return None
+
+
+KNOWN_PROBES = {"kfl_assert_does_not_check_nonnegativity": _probe_d72}
